@@ -3,7 +3,7 @@ PROP = dict(
         gens=['codec'],
         lake=['IcyVerif.Props.C18'],
         ns='IcyVerif.C18',
-        theorems=['attr_dec_enc', 'attr_enc_dec', 'attr_enc_dec_exact', 'attr_dec_expressible',
+        theorems=['attr_dec_enc', 'attr_enc_dec', 'attr_enc_dec_bold', 'attr_enc_dec_exact', 'attr_dec_expressible',
                   'pinned_unlimited_defect', 'pinned_defect_exact',
                   'cp437_rt', 'atascii_rt', 'typed_rt', 'typed_rt_list', 'petscii_table_rt'],
         harness='c18',
